@@ -380,6 +380,7 @@ def gen_request(r, defect=None):
     if defect == "underscore" and r.random() < 0.6 and SVC_POOL[0] not in svcs:
         svcs = [SVC_POOL[0]] + svcs[:2]
     files, mi, bare = [], 0, set()
+    nested_mid = r.random() < 0.5
     sub = r.choice(["sub", "types_ext", "admin"]) if (ver and r.random() < 0.3) or defect in ("nested", "subsvc") else None
     if stems[:2] in ([FILE_POOL[0], FILE_POOL[1]], [FILE_POOL[1], FILE_POOL[0]]) and len(stems) < 3 and defect not in ("nested", "subsvc"):
         sub = None
@@ -407,6 +408,8 @@ def gen_request(r, defect=None):
             p = pkg + "." + ["alpha", "apple", "alpha"][k % 3]
         if defect == "nested" and k == len(stems) - 1:
             p = pkg + "." + sub + ".deep"
+        elif defect == "nested" and k == 1 and len(stems) > 2 and nested_mid:
+            p = pkg + "." + sub          # the intermediate level owns a file too (otherwise it is empty)
         f = File(f"{p.replace('.', '/')}/{stem}.proto", p, deps=list(apigen.STD_DEPS))
         # target files without any message or enum: a service-only file whose request / response messages live in a sibling
         # file, or an empty placeholder file — each still gets its types module
